@@ -1,19 +1,549 @@
 package main
 
 import (
+	"encoding/json"
+	"flag"
 	"fmt"
-	"golang.org/x/tools/go/packages"
+	"os"
+	"path/filepath"
+	"regexp"
+	"sort"
+	"strconv"
+	"strings"
+	"sync"
+	"time"
+
 	"golang.org/x/tools/go/ssa"
-	"golang.org/x/tools/go/ssa/ssautil"
 )
 
+var (
+	verifDir = "/verif"
+	repoDir  = "/repo"
+)
+
+var loadPatterns = []string{"./cmd/rdpgw/...", "./cmd/auth/ntlm", "./cmd/auth/database", "./cmd/auth/config", "./shared/..."}
+
 func main() {
-	cfg := &packages.Config{Mode: packages.LoadAllSyntax, Dir: "/repo", BuildFlags: []string{"-tags=verif"}}
-	pkgs, err := packages.Load(cfg, "./cmd/rdpgw/protocol")
-	if err != nil {
-		panic(err)
+	if len(os.Args) < 2 {
+		fmt.Fprintln(os.Stderr, "usage: gocv check|func|lock|list|replay ...")
+		os.Exit(2)
 	}
-	prog, _ := ssautil.AllPackages(pkgs, ssa.InstantiateGenerics)
-	prog.Build()
-	fmt.Println(len(pkgs), len(prog.AllPackages()))
+	if v := os.Getenv("GOCV_VERIF"); v != "" {
+		verifDir = v
+	}
+	if v := os.Getenv("GOCV_REPO"); v != "" {
+		repoDir = v
+	}
+	defer cleanupWork()
+	code := 0
+	switch os.Args[1] {
+	case "check":
+		code = cmdCheck(os.Args[2:])
+	case "func":
+		code = cmdFunc(os.Args[2:])
+	case "lock":
+		code = cmdLock(os.Args[2:])
+	case "list":
+		code = cmdList(os.Args[2:])
+	case "replay":
+		code = cmdReplay(os.Args[2:])
+	default:
+		fmt.Fprintln(os.Stderr, "unknown command", os.Args[1])
+		code = 2
+	}
+	cleanupWork()
+	os.Exit(code)
+}
+
+func mustLoad() *Program {
+	t0 := time.Now()
+	prog, err := loadProgram(repoDir, loadPatterns, filepath.Join(verifDir, "contracts"))
+	if err != nil {
+		fmt.Fprintln(os.Stderr, "load failed:", err)
+		cleanupWork()
+		os.Exit(2)
+	}
+	prog.loadSecs = time.Since(t0).Seconds()
+	if len(prog.contracts.Errors) > 0 {
+		for _, e := range prog.contracts.Errors {
+			fmt.Fprintln(os.Stderr, "contract error:", e)
+		}
+		cleanupWork()
+		os.Exit(2)
+	}
+	return prog
+}
+
+func hasTag(tags []string, p string) bool {
+	for _, t := range tags {
+		if t == p {
+			return true
+		}
+	}
+	return false
+}
+
+// functionsFor returns the functions that carry a clause tagged with property p.
+func functionsFor(prog *Program, p string) []*Contract {
+	var cs []*Contract
+	for _, k := range sortedKeys(prog.contracts.ByKey) {
+		c := prog.contracts.ByKey[k]
+		if c.Kind != "func" {
+			continue
+		}
+		for _, cl := range c.Clauses {
+			if hasTag(cl.Tags, p) {
+				cs = append(cs, c)
+				break
+			}
+		}
+	}
+	return cs
+}
+
+func contractWantsSafety(c *Contract, p string) bool {
+	for _, cl := range c.Clauses {
+		if cl.Kind == "nopanic" && hasTag(cl.Tags, p) {
+			return true
+		}
+	}
+	return false
+}
+
+type Finding struct {
+	Kind       string // finding | fixed
+	Property   string
+	Obligation string
+	Text       string
+}
+
+func loadFindings() []Finding {
+	var fs []Finding
+	data, err := os.ReadFile(filepath.Join(verifDir, "known_findings.txt"))
+	if err != nil {
+		return nil
+	}
+	re := regexp.MustCompile(`^(finding|fixed):\s+property=(\S+)\s+(?:obligation=(\S+)\s+)?(.*)$`)
+	for _, line := range strings.Split(string(data), "\n") {
+		line = strings.TrimSpace(line)
+		if m := re.FindStringSubmatch(line); m != nil {
+			fs = append(fs, Finding{m[1], m[2], m[3], m[4]})
+		}
+	}
+	return fs
+}
+
+func baseName(n string) string {
+	if i := strings.LastIndex(n, "#"); i > 0 {
+		if _, err := strconv.Atoi(n[i+1:]); err == nil {
+			return n[:i]
+		}
+	}
+	return n
+}
+
+func lockName(n string) string {
+	n = baseName(n)
+	if i := strings.Index(n, ".preserve@"); i > 0 {
+		n = n[:i+len(".preserve")]
+	}
+	return n
+}
+
+func loadLock() map[string][]string {
+	m := map[string][]string{}
+	data, err := os.ReadFile(filepath.Join(verifDir, "obligations.lock"))
+	if err != nil {
+		return m
+	}
+	for _, line := range strings.Split(string(data), "\n") {
+		fs := strings.SplitN(strings.TrimSpace(line), " ", 2)
+		if len(fs) == 2 && !strings.HasPrefix(fs[0], "#") {
+			m[fs[0]] = append(m[fs[0]], strings.TrimSpace(fs[1]))
+		}
+	}
+	return m
+}
+
+type checkRun struct {
+	prog     *Program
+	prop     string
+	tier     string
+	results  []*FuncResult
+	obls     []*Obligation
+	skipped  int
+	solveSec float64
+	wins     map[string]int
+}
+
+func selectObligations(fr *FuncResult, prop string) (sel []*Obligation, skipped int) {
+	for _, o := range fr.Obls {
+		if len(o.Tags) == 0 || hasTag(o.Tags, prop) {
+			sel = append(sel, o)
+		} else {
+			skipped++
+		}
+	}
+	return
+}
+
+func solveAll(obls []*Obligation, timeoutS int, confirm bool) (float64, map[string]int) {
+	var wg sync.WaitGroup
+	var mu sync.Mutex
+	wins := map[string]int{}
+	total := 0.0
+	sem := make(chan struct{}, 12)
+	for _, o := range obls {
+		wg.Add(1)
+		go func(o *Obligation) {
+			defer wg.Done()
+			sem <- struct{}{}
+			defer func() { <-sem }()
+			q := o.smt.Query(o.prefix, o.pc, not(o.goal))
+			r := Solve(q, timeoutS, confirm, o.Name)
+			o.Result = &r
+			mu.Lock()
+			total += r.Secs
+			wins[r.Solver]++
+			mu.Unlock()
+		}(o)
+	}
+	wg.Wait()
+	return total, wins
+}
+
+func cmdCheck(args []string) int {
+	fs := flag.NewFlagSet("check", flag.ExitOnError)
+	prop := fs.String("p", "", "property id")
+	tier := fs.String("tier", os.Getenv("VERIF_TIER"), "quick|thorough")
+	verbose := fs.Bool("v", false, "verbose")
+	keep := fs.Bool("keep", false, "keep failing queries")
+	fs.Parse(args)
+	if *tier == "" {
+		*tier = "quick"
+	}
+	if *prop == "" {
+		fmt.Fprintln(os.Stderr, "check: -p required")
+		return 2
+	}
+	t0 := time.Now()
+	prog := mustLoad()
+	run := &checkRun{prog: prog, prop: *prop, tier: *tier}
+	ctrs := functionsFor(prog, *prop)
+	if len(ctrs) == 0 {
+		fmt.Printf("no function carries a clause tagged %s\n", *prop)
+		return 2
+	}
+	engineErr := false
+	for _, c := range ctrs {
+		fn := prog.funcByKey[c.Key]
+		if fn == nil {
+			fmt.Printf("contract target not found: %s\n", c.Key)
+			continue
+		}
+		opts := VerifyOpts{Safety: contractWantsSafety(c, *prop), SafetyTags: []string{*prop}, Liveness: *prop == "C20"}
+		fr := verifyFunction(prog, fn, c, opts)
+		run.results = append(run.results, fr)
+		sel, sk := selectObligations(fr, *prop)
+		run.obls = append(run.obls, sel...)
+		run.skipped += sk
+		for _, u := range fr.Unsupp {
+			fmt.Printf("ENGINE-LIMIT %s: %s\n", prog.relName(fn), u)
+			engineErr = true
+		}
+		if *verbose {
+			for _, w := range fr.Warnings {
+				fmt.Printf("warning %s: %s\n", prog.relName(fn), w)
+			}
+		}
+	}
+	timeout := 10
+	confirm := false
+	if *tier == "thorough" {
+		timeout = 60
+		confirm = true
+	}
+	run.solveSec, run.wins = solveAll(run.obls, timeout, confirm)
+	code := report(run, time.Since(t0).Seconds(), *verbose, *keep, engineErr)
+	return code
+}
+
+func report(run *checkRun, wall float64, verbose, keep bool, engineErr bool) int {
+	prop := run.prop
+	findings := loadFindings()
+	known := map[string]Finding{}
+	for _, f := range findings {
+		if f.Kind == "finding" && f.Property == prop && f.Obligation != "" {
+			known[f.Obligation] = f
+		}
+	}
+	lock := loadLock()
+	discharged, violations, knownHits := 0, 0, 0
+	var samples []map[string]any
+	var lines []string
+	produced := map[string]bool{}
+	seenKnown := map[string]bool{}
+	sort.SliceStable(run.obls, func(i, j int) bool { return run.obls[i].Name < run.obls[j].Name })
+	for _, o := range run.obls {
+		produced[lockName(o.Name)] = true
+		r := o.Result
+		if r == nil {
+			continue
+		}
+		if len(samples) < 12 {
+			samples = append(samples, map[string]any{"obligation": o.Name, "kind": o.Kind, "status": r.Status, "solver": r.Solver, "secs": round3(r.Secs), "query_bytes": len(o.smt.Query(o.prefix, o.pc, not(o.goal)))})
+		}
+		if verbose {
+			fmt.Printf("  %-8s %-7s %6.2fs %s\n", r.Status, r.Solver, r.Secs, o.Name)
+		}
+		if r.Status == "unsat" {
+			discharged++
+			continue
+		}
+		if f, ok := known[baseName(o.Name)]; ok {
+			if !seenKnown[baseName(o.Name)] {
+				lines = append(lines, fmt.Sprintf("KNOWN-FINDING: property=%s %s [%s] %s", prop, baseName(o.Name), r.Status, f.Text))
+				seenKnown[baseName(o.Name)] = true
+			}
+			knownHits++
+			continue
+		}
+		violations++
+		path := writeReplay(run, o, keep)
+		suffix := ""
+		if !strings.HasSuffix(path, ".confirmed") && (r.Status != "sat" || !replayConfirmed(path)) {
+			suffix = " no-failing-input-found"
+		}
+		lines = append(lines, fmt.Sprintf("VIOLATION property=%s replay=%s%s", prop, path, suffix))
+		lines = append(lines, fmt.Sprintf("  obligation %s failed (%s by %s) at %s", o.Name, r.Status, r.Solver, o.Pos))
+	}
+	// lock: every locked clause must still produce obligations
+	for _, want := range lock[prop] {
+		if !produced[want] {
+			violations++
+			path := writeMissing(run, want)
+			lines = append(lines, fmt.Sprintf("VIOLATION property=%s replay=%s no-failing-input-found", prop, path))
+			lines = append(lines, fmt.Sprintf("  locked obligation %s is no longer generated (function or clause missing): the proof is not carried out", want))
+		}
+	}
+	for _, l := range lines {
+		fmt.Println(l)
+	}
+	total := len(run.obls)
+	fmt.Printf("property %s tier %s: %d functions under contract, %d obligations, %d discharged, %d known-finding, %d violations, %d of other properties skipped; solver %.1fs wall %.1fs\n",
+		prop, run.tier, len(run.results), total, discharged, knownHits, violations, run.skipped, run.solveSec, wall)
+	writeEvidence(run, total, discharged, knownHits, violations, samples, wall)
+	if total == 0 {
+		fmt.Println("no obligations generated: vacuous run")
+		return 2
+	}
+	if violations > 0 {
+		return 1
+	}
+	if engineErr {
+		return 2
+	}
+	return 0
+}
+
+func round3(f float64) float64 { return float64(int(f*1000)) / 1000 }
+
+func replayConfirmed(path string) bool {
+	data, err := os.ReadFile(path)
+	if err != nil {
+		return false
+	}
+	return strings.Contains(string(data), "confirmed-on-real-code")
+}
+
+func replayDir(prop string) string {
+	d := filepath.Join(verifDir, "replay", prop)
+	os.MkdirAll(d, 0o755)
+	return d
+}
+
+func writeMissing(run *checkRun, name string) string {
+	path := filepath.Join(replayDir(run.prop), sanitize(name)+".missing.txt")
+	os.WriteFile(path, []byte(fmt.Sprintf("obligation: %s\nstatus: not generated\nThe locked contract clause or its function no longer exists in /repo; no counterexample can exist for a proof that is not carried out.\n", name)), 0o644)
+	return path
+}
+
+func writeEvidence(run *checkRun, total, discharged, knownHits, violations int, samples []map[string]any, wall float64) {
+	var fns []string
+	trusted := map[string]bool{}
+	inlined := map[string]bool{}
+	var warnings []string
+	for _, r := range run.results {
+		fns = append(fns, run.prog.relName(r.Fn))
+		for _, t := range r.Trusted {
+			trusted[t] = true
+		}
+		for _, t := range r.Inlined {
+			inlined[t] = true
+		}
+		for _, w := range r.Warnings {
+			warnings = append(warnings, run.prog.relName(r.Fn)+": "+w)
+		}
+	}
+	seed, _ := strconv.Atoi(os.Getenv("VERIF_SEED"))
+	tb := sortedKeys(trusted)
+	tb = append(tb, "gocv VC generator (go/ssa -> SMT)", "go/packages+go/types+go/ssa x/tools v0.29.0", "z3 4.8.12, z3 5.1.0, cvc5 1.0.3")
+	ev := map[string]any{
+		"property_id": run.prop,
+		"tier":        run.tier,
+		"seed":        seed,
+		"level":       "proof",
+		"wall_s":      round3(wall),
+		"violations":  violations,
+		"coverage": map[string]any{
+			"obligations":              total,
+			"discharged":               discharged + 0,
+			"known_findings_hit":       knownHits,
+			"checker_cmd":              fmt.Sprintf("bin/gocv check -p %s -tier %s", run.prop, run.tier),
+			"trusted_base":             tb,
+			"functions_under_contract": fns,
+			"inlined_callees":          sortedKeys(inlined),
+			"solver_wins":              run.wins,
+			"solver_seconds":           round3(run.solveSec),
+			"load_seconds":             round3(run.prog.loadSecs),
+			"samples":                  samples,
+			"skipped_other_properties": run.skipped,
+			"contract_files":           run.prog.contracts.Files,
+			"engine_warnings":          warnings,
+		},
+		"assumptions": assumptionsFor(run.prop),
+	}
+	os.MkdirAll(filepath.Join(verifDir, "evidence"), 0o755)
+	data, _ := json.MarshalIndent(ev, "", " ")
+	os.WriteFile(filepath.Join(verifDir, "evidence", run.prop+".json"), append(data, '\n'), 0o644)
+}
+
+func assumptionsFor(prop string) []string {
+	base := []string{
+		"machine integers are modelled exactly as bit-vectors; slice lengths/capacities are assumed <= 2^40",
+		"sequential semantics: goroutines are not interleaved; spawned functions are verified separately",
+		"extern functions without contract: results unconstrained, only memory directly reachable from pointer/slice arguments is havocked",
+		"termination is not verified",
+	}
+	data, err := os.ReadFile(filepath.Join(verifDir, "contracts", "assumptions.json"))
+	if err == nil {
+		var m map[string][]string
+		if json.Unmarshal(data, &m) == nil {
+			base = append(base, m[prop]...)
+		}
+	}
+	return base
+}
+
+// ---------- other commands ----------
+
+func cmdFunc(args []string) int {
+	fs := flag.NewFlagSet("func", flag.ExitOnError)
+	name := fs.String("f", "", "function relname (e.g. protocol.readHeader)")
+	safety := fs.Bool("safety", false, "generate panic-freedom obligations")
+	dump := fs.Bool("dump", false, "dump queries of failing obligations")
+	timeout := fs.Int("t", 10, "solver timeout")
+	fs.Parse(args)
+	prog := mustLoad()
+	var fn *ssa.Function
+	for _, f := range prog.funcByKey {
+		if prog.relName(f) == *name {
+			fn = f
+		}
+	}
+	if fn == nil {
+		fmt.Println("function not found:", *name)
+		return 2
+	}
+	ctr := prog.contractFor(fn)
+	res := verifyFunction(prog, fn, ctr, VerifyOpts{Safety: *safety, SafetyTags: []string{"C10"}, Liveness: true})
+	for _, w := range res.Warnings {
+		fmt.Println("warning:", w)
+	}
+	for _, u := range res.Unsupp {
+		fmt.Println("ENGINE-LIMIT:", u)
+	}
+	solveAll(res.Obls, *timeout, false)
+	bad := 0
+	for _, o := range res.Obls {
+		fmt.Printf("  %-8s %-7s %6.2fs [%s] %s\n", o.Result.Status, o.Result.Solver, o.Result.Secs, strings.Join(o.Tags, ","), o.Name)
+		if o.Result.Status != "unsat" {
+			bad++
+			if *dump {
+				p := filepath.Join(verifDir, ".work", sanitize(o.Name)+".smt2")
+				os.WriteFile(p, []byte(o.smt.Query(o.prefix, o.pc, not(o.goal))+"(get-model)\n"), 0o644)
+				fmt.Println("    query:", p)
+			}
+		}
+	}
+	fmt.Printf("%d obligations, %d not discharged; trusted: %v\n", len(res.Obls), bad, res.Trusted)
+	if bad > 0 {
+		return 1
+	}
+	return 0
+}
+
+func cmdList(args []string) int {
+	prog := mustLoad()
+	for _, k := range sortedKeys(prog.contracts.ByKey) {
+		c := prog.contracts.ByKey[k]
+		tags := map[string]bool{}
+		for _, cl := range c.Clauses {
+			for _, t := range cl.Tags {
+				tags[t] = true
+			}
+		}
+		found := "-"
+		if c.Kind == "func" {
+			if prog.funcByKey[c.Key] != nil {
+				found = "ok"
+			} else {
+				found = "MISSING"
+			}
+		}
+		fmt.Printf("%-8s %-8s %-70s %v\n", c.Kind, found, k, sortedKeys(tags))
+	}
+	return 0
+}
+
+// cmdLock regenerates obligations.lock: the clause-level obligations (ensures,
+// invariants, call-site requires, frames) each claimed property must produce.
+func cmdLock(args []string) int {
+	prog := mustLoad()
+	props := map[string]bool{}
+	for _, c := range prog.contracts.ByKey {
+		for _, cl := range c.Clauses {
+			for _, t := range cl.Tags {
+				props[t] = true
+			}
+		}
+	}
+	var out []string
+	out = append(out, "# property obligation-name (clause-level obligations that must still be generated; site obligations are not pinned)")
+	for _, p := range sortedKeys(props) {
+		names := map[string]bool{}
+		for _, c := range functionsFor(prog, p) {
+			fn := prog.funcByKey[c.Key]
+			if fn == nil {
+				continue
+			}
+			fr := verifyFunction(prog, fn, c, VerifyOpts{Safety: false, Liveness: p == "C20"})
+			sel, _ := selectObligations(fr, p)
+			for _, o := range sel {
+				switch o.Kind {
+				case "ensures", "inv.entry", "inv.preserve":
+					n := lockName(o.Name)
+					if hasTag(o.Tags, p) {
+						names[n] = true
+					}
+				}
+			}
+		}
+		for _, n := range sortedKeys(names) {
+			out = append(out, p+" "+n)
+		}
+	}
+	os.WriteFile(filepath.Join(verifDir, "obligations.lock"), []byte(strings.Join(out, "\n")+"\n"), 0o644)
+	fmt.Printf("wrote %d lock entries\n", len(out)-1)
+	return 0
 }
